@@ -1245,6 +1245,41 @@ def stale_views(ctx, rng):
             shutil.rmtree(root, ignore_errors=True)
 
 
+def root_identity_probe(ctx, rng):
+    """The root identity "/" (a name without components) beside a default identity: a signer requested for it BY NAME - in list and
+    tuple form, which are empty containers - is a signer of its key, not the default identity's."""
+    for rep in range(ctx.n(2, 20)):
+        root = tempfile.mkdtemp(prefix='nvf-kc-')
+        try:
+            S = Store(root)
+            kc = S.kc
+            kc.touch_identity([C(b'first'), C(b'default')])
+            kc.touch_identity([])
+            rkeys = [k for k in kc[[]]]
+            if not rkeys:
+                ctx.event('observation:root-identity-without-key')
+                continue
+            bits = bytes(kc[[]][rkeys[0]].key_bits)
+            loc = tuple(bytes(c) for c in Name.normalize(kc[[]][rkeys[0]].default_cert().name))
+            for form, lab in (([], 'list'), ((), 'tuple'), ('/', 'uri')):
+                ctx.event('signer-for-the-root-identity-by-name')
+                ctx.case(('root-identity', lab), nontrivial=True)
+                try:
+                    sg = kc.get_signer({'identity': form})
+                except Exception as e:   # noqa
+                    ctx.report(f'get-signer-raises:{type(e).__name__}@{raising_site(e)[0]}:root-identity', f'get_signer for the root identity given as {lab} raised {e!r}', {'form': lab})
+                    continue
+                r = rc.strict_data(bytes(make_data([C(b'signed')], MetaInfo(), b'x', sg)))
+                kl = r['sig_info']['key_name'] if r['sig_info'] else None
+                if not verify_sig(bits, r['signed_portion'], r['sig_value']) or kl is None or tuple(kl) != loc:
+                    ctx.report('signer-wrong-private-key:root-identity', f'the signer obtained for the root identity (name given as {lab}) does not sign with / name the root identity\'s key', {'form': lab})
+            S.close()
+        except Exception as e:   # noqa
+            ctx.report(f'root-identity-probe-raises:{type(e).__name__}@{raising_site(e)[0]}', f'{e!r}', None)
+        finally:
+            shutil.rmtree(root, ignore_errors=True)
+
+
 def run(ctx):
     ctx.rule = RULE
     rng = ctx.rng
@@ -1252,6 +1287,8 @@ def run(ctx):
     scripted_defaults(ctx, rng)
     if ctx.shard == 0:
         stale_views(ctx, rng)
+        root_identity_probe(ctx, rng)
+        ctx.need_event('signer-for-the-root-identity-by-name')
         ctx.need_event('stale-identity-view-probed')
     if ctx.shard == 0:
         bulk_scopes(ctx, rng)
